@@ -123,6 +123,10 @@ def sprite_extraction(F, S):
 
 def check(F, run, tier):
     S = Summaries(F)
+    from ..rules_archive import discarded_exception_obligations
+    discarded_exception_obligations(F, S, run)
+    from ..rules_archive import cstring_obligations
+    cstring_obligations(F, S, run)
     from ..rules_archive import handlers_rethrow
     _oh, _nh = handlers_rethrow(F, S, ["/src/"])
     run.add(_oh)
